@@ -956,6 +956,7 @@ type c11Auth struct {
 // c11PStep is one step of the pipeline machine.
 //   setup : contract->account mapping, accounts acc and X2 created through $acl.NewAccount, one block
 //   change: SetAccountAcl(Target) / SetMethodAcl(counter.inc, owned by acc) with rule Rule, signed by Auth
+//   spend : a transfer out of account Target's own funds (back to itself), signed by Auth
 //   mine  : the node's own block; walk: State.Walk to block Target index; sync: walk to the ledger tip
 type c11PStep struct {
 	Op     string    `json:"op"`
@@ -1134,6 +1135,27 @@ func (p *c11Pipe) apply(st c11PStep) error {
 				return err
 			}
 		}
+		for _, sym := range []string{"acc", "X2"} {
+			// funds owned by the account itself (for spend steps)
+			s := nm.PoolState()
+			var in *hx.UTXO
+			for _, u := range s.UtxosOf(hx.Ring[0].Address) {
+				if u.Frozen == 0 && u.Amount.IsInt64() && u.Amount.Int64() > 5000 {
+					in = u
+					break
+				}
+			}
+			if in == nil {
+				return fmt.Errorf("harness: payer cannot fund %s", sym)
+			}
+			nm.Seq++
+			spec := &hx.TxSpec{From: 0, Seq: nm.Seq, Version: 3,
+				Ins:  []hx.InRef{{Addr: 0, Txid: hex.EncodeToString(in.Txid), Off: in.Off, Amount: in.Amount.String()}},
+				Outs: []hx.OutSpec{{To: -2, ToS: c11Real(sym), Amount: "5000"}, {To: 0, Amount: fmt.Sprint(in.Amount.Int64() - 5000)}}}
+			if err := p.applyTxOp(spec); err != nil {
+				return err
+			}
+		}
 		if err := nm.Apply(hx.NOp{Op: "mine", Label: fmt.Sprintf("b%d", len(m.Blocks))}); err != nil {
 			return err
 		}
@@ -1176,7 +1198,7 @@ func (p *c11Pipe) apply(st c11PStep) error {
 			p.stat["walk-back"]++
 		}
 		return p.checkNode()
-	case "change":
+	case "change", "spend":
 		return p.change(st)
 	}
 	return fmt.Errorf("bad step: op %q", st.Op)
@@ -1208,7 +1230,9 @@ type c11ChangeView struct {
 
 func (p *c11Pipe) view(st c11PStep) (*c11ChangeView, error) {
 	v := &c11ChangeView{owner: st.Target}
-	if st.Kind == "method" {
+	if st.Op == "spend" {
+		// the owner of the funds is the account itself
+	} else if st.Kind == "method" {
 		v.owner = "acc" // counter is owned by acc (setup)
 	} else if st.Kind != "account" {
 		return nil, fmt.Errorf("bad step: change kind %q", st.Kind)
@@ -1256,7 +1280,7 @@ func (p *c11Pipe) view(st c11PStep) (*c11ChangeView, error) {
 
 func (p *c11Pipe) change(st c11PStep) error {
 	nm := p.nm
-	if st.Rule == nil {
+	if st.Op == "change" && st.Rule == nil {
 		return fmt.Errorf("bad step: change without rule")
 	}
 	v, err := p.view(st)
@@ -1267,16 +1291,31 @@ func (p *c11Pipe) change(st c11PStep) error {
 		return fmt.Errorf("bad step: account %s does not exist on the confirmed chain", st.Target)
 	}
 	s := nm.PoolState()
-	js := c11RuleJSON(*st.Rule)
-	p.byJSON[js] = *st.Rule
 	var spec *hx.TxSpec
-	if st.Kind == "account" {
-		spec, err = p.c11Spec(s, "$acl", "SetAccountAcl", map[string]string{"account_name": c11Real(st.Target), "acl": js}, nil)
+	kind := st.Kind
+	if st.Op == "spend" {
+		kind = "spend"
+		us := s.UtxosOf(c11Real(st.Target))
+		if len(us) == 0 {
+			p.stat["spend-skipped-no-funds"]++
+			return nil
+		}
+		u := us[0]
+		nm.Seq++
+		spec = &hx.TxSpec{From: 0, Seq: nm.Seq, Version: 3,
+			Ins:  []hx.InRef{{Addr: -1, AddrS: c11Real(st.Target), Txid: hex.EncodeToString(u.Txid), Off: u.Off, Amount: u.Amount.String(), Frozen: u.Frozen}},
+			Outs: []hx.OutSpec{{To: -2, ToS: c11Real(st.Target), Amount: u.Amount.String()}}}
 	} else {
-		spec, err = p.c11Spec(s, "$acl", "SetMethodAcl", map[string]string{"contract_name": c11MethodContract, "method_name": c11MethodName, "acl": js}, nil)
-	}
-	if err != nil {
-		return fmt.Errorf("harness: %v", err)
+		js := c11RuleJSON(*st.Rule)
+		p.byJSON[js] = *st.Rule
+		if st.Kind == "account" {
+			spec, err = p.c11Spec(s, "$acl", "SetAccountAcl", map[string]string{"account_name": c11Real(st.Target), "acl": js}, nil)
+		} else {
+			spec, err = p.c11Spec(s, "$acl", "SetMethodAcl", map[string]string{"contract_name": c11MethodContract, "method_name": c11MethodName, "acl": js}, nil)
+		}
+		if err != nil {
+			return fmt.Errorf("harness: %v", err)
+		}
 	}
 	tx, err := c11BuildTx(nm, spec, s, st.Auth)
 	if err != nil {
@@ -1288,8 +1327,12 @@ func (p *c11Pipe) change(st c11PStep) error {
 	sub := hx.CloneTx(tx)
 	ok, verr := nm.N.State.VerifyTx(sub)
 	accepted := ok && verr == nil
-	what := fmt.Sprintf("%s rule change of %s signed by %s; rule of owner %s on the confirmed chain %s (pending state: %s)",
-		st.Kind, st.Target, c11AuthText(st.Auth), v.owner, c11RuleText(v.confirmed, ""), c11RuleText(v.pending, ""))
+	what := fmt.Sprintf("%s rule change of %s", st.Kind, st.Target)
+	if st.Op == "spend" {
+		what = fmt.Sprintf("transfer out of the funds of %s", st.Target)
+	}
+	what += fmt.Sprintf(" signed by %s; rule of owner %s on the confirmed chain %s (pending state: %s)",
+		c11AuthText(st.Auth), v.owner, c11RuleText(v.confirmed, ""), c11RuleText(v.pending, ""))
 	if accepted && !v.want {
 		return fmt.Errorf("VerifyTx ACCEPTS a %s although the verified signers %v do not satisfy the owner's confirmed rule", what, v.verified)
 	}
@@ -1302,20 +1345,20 @@ func (p *c11Pipe) change(st c11PStep) error {
 		}
 		nm.Pool = append(nm.Pool, tx)
 		c11NoteKeys(nm, tx)
-		p.stat["change-accepted"]++
+		p.stat[st.Op+"-accepted"]++
 	} else {
-		p.stat["change-refused"]++
+		p.stat[st.Op+"-refused"]++
 		if verr != nil && v.allVerified && verr.Error() != "ACL not enough" {
 			p.stat["refused-with-other-error"]++
 		}
 	}
-	p.stat["change:"+st.Kind]++
+	p.stat["guarded:"+kind]++
 	if !v.allVerified {
 		p.stat["forged-entry"]++
 	}
 	nt := false
 	if v.hasPending {
-		p.stat["change-while-rule-change-pending"]++
+		p.stat["guarded-tx-while-rule-change-pending"]++
 		if v.want != v.wantPending {
 			p.stat["confirmed-and-pending-rule-disagree"]++
 			nt = true
@@ -1348,6 +1391,7 @@ func c11NewPipe(fs *hx.FindingSet) (*c11Pipe, error) {
 	if err != nil {
 		return nil, err
 	}
+	nm.AddrUniv = append(nm.AddrUniv, c11Real("acc"), c11Real("X2"))
 	return &c11Pipe{nm: nm, byJSON: map[string]c11Rule{}, stat: map[string]int{}}, nil
 }
 
@@ -1451,14 +1495,18 @@ func c11SatisfyingSets(rules map[string]c11Rule, owner string, useful []string) 
 
 func c11GenChange(rt *rapid.T, p *c11Pipe) (c11PStep, error) {
 	st := c11PStep{Op: "change", Kind: "account", Target: "acc"}
-	switch rapid.IntRange(0, 9).Draw(rt, "what") {
+	switch rapid.IntRange(0, 11).Draw(rt, "what") {
 	case 0, 1:
 		st.Target = "X2"
 	case 2, 3:
 		st.Kind = "method"
+	case 4, 5:
+		st = c11PStep{Op: "spend", Target: rapid.SampledFrom([]string{"acc", "acc", "X2"}).Draw(rt, "spender")}
 	}
-	r := c11DrawRule(rt, map[bool]string{true: "acc", false: "X2"}[st.Target == "acc" && st.Kind == "account"], "new")
-	st.Rule = &r
+	if st.Op == "change" {
+		r := c11DrawRule(rt, map[bool]string{true: "acc", false: "X2"}[st.Target == "acc" && st.Kind == "account"], "new")
+		st.Rule = &r
+	}
 	v, err := p.view(st)
 	if err != nil {
 		return st, err
@@ -1514,7 +1562,7 @@ func c11GenChange(rt *rapid.T, p *c11Pipe) (c11PStep, error) {
 	}
 	for _, u := range uris {
 		a := c11Auth{URI: u, Key: c11LastComp(u)}
-		if rapid.IntRange(0, 49).Draw(rt, "forge") == 0 {
+		if rapid.IntRange(0, 49).Draw(rt, "forge") == 17 {
 			a.Key = rapid.SampledFrom(append([]string{"E"}, c11Keys...)).Draw(rt, "forger")
 		}
 		st.Auth = append(st.Auth, a)
